@@ -151,6 +151,7 @@ def check(ctx):
         plan = [("bfs2", ["-mode", "bfs", "-depth", 2, "-level", 2, "-seed", ctx.seed], shards),
                 ("bfs3", ["-mode", "bfs", "-depth", 3, "-level", 1, "-seed", ctx.seed + 1], shards),
                 ("bfs3b", ["-mode", "bfs", "-depth", 3, "-level", 1, "-seed", ctx.seed + 2], shards),
+                ("bfs3full", ["-mode", "bfs", "-depth", 3, "-level", 2, "-seed", ctx.seed + 3], shards),
                 ("sim", ["-mode", "sim", "-count", 6000, "-seed", ctx.seed], shards)]
     for name, args, sh in plan:
         t = sharded(ctx, name, args, sh)
